@@ -1181,12 +1181,18 @@ class KafkaClient(object):
         hostports = list(self._bootstrap_hosts)
         random.shuffle(hostports)
         for host, port in hostports:
+            if self._closing:
+                raise CancelledError(message="{} closed before {} was sent".format(self, _ReprRequest(request)))
             ep = self._endpoint_factory(self.reactor, host, port)
             try:
                 protocol = yield ep.connect(_bootstrapFactory)
             except Exception as e:
                 log.debug("%s: bootstrap connect to %s:%s -> %s", self, host, port, e)
                 continue
+
+            if self._closing:
+                protocol.transport.loseConnection()
+                raise CancelledError(message="{} closed before {} was sent".format(self, _ReprRequest(request)))
 
             try:
                 response = yield protocol.request(request).addTimeout(self.timeout, self.reactor)
